@@ -31,6 +31,7 @@ FS_EVENTS = MUT_EVENTS | {"open", "os.listdir", "os.scandir"}
 def child_main(req, wfd):
     rootstr = req["root"]
     kill_at = req.get("kill_at")
+    fail_at = req.get("fail_at")
     state = {"n": 0, "armed": True}
 
     def emit(obj):
@@ -52,6 +53,11 @@ def child_main(req, wfd):
             os.kill(os.getpid(), signal.SIGKILL)
             time.sleep(10)
         emit(["E", event, [p[len(rootstr):] for p in paths if p.startswith(rootstr)], mutating])
+        if fail_at is not None and state["n"] == fail_at:
+            # the operation fails with an I/O error instead of the process dying (an exception raised by an audit hook becomes the
+            # operation's exception)
+            import errno
+            raise OSError(errno.EIO, "injected I/O error", paths[0] if paths else None)
 
     from pathlib import Path
     sys.addaudithook(hook)
